@@ -71,7 +71,10 @@ func runConfig(env *Env) error {
 		if sweep {
 			s = settings[3+i%3]
 		}
-		s.env, s.def = envName[s.flag], defOf[s.flag]
+		// the documented name of the setting's environment variable (README: PS3NETSRV_ROOT for --root, and so on for the others);
+		// that the struct tags say the same is the theorem C19_table over the regenerated table
+		s.env, s.def = "PS3NETSRV_"+strings.ToUpper(strings.ReplaceAll(s.flag, "-", "_")), defOf[s.flag]
+		_ = envName
 		if s.flag == "root" { // spellings of the root: absolute, trailing slash, relative to the working directory
 			switch env.Rnd.Intn(3) {
 			case 1:
